@@ -150,6 +150,9 @@ type nmN2 struct {
 type nmPub struct {
 	epoch   int64
 	leg, n2 string
+	// C08: published in the middle of a block after the model was found out of
+	// step with the contract's candidate set: what it holds was never observed
+	unseen bool
 }
 
 type nmModel struct {
@@ -421,6 +424,7 @@ type nmEngine struct {
 	resizes  int // resize transactions built so far
 	pending  []*nmTx
 	bigJumps bool // epoch jumps land right below 2^31
+	c08Drift bool // C08: a published map was taken from observation
 }
 
 func nmBody(r *Run) {
@@ -1542,14 +1546,64 @@ func (e *nmEngine) checkState() {
 	}
 	r.Checkpoint()
 	// C06: the published map in both formats
+	// C08 is about keeping what was published, whatever that was: *what* a tick
+	// publishes is C06's (and the candidate set C07's) business. When C08 is
+	// decided and the map just published is not the model's, the observed one
+	// becomes the reference for the history rules (and maps published earlier in
+	// the same block, never observable, are no longer compared).
+	c08 := r.Prop == "C08" && !r.shadow
+	adopt := func(leg bool, got string) {
+		r.Count("c08_reference_taken_from_observation")
+		e.c08Drift = true
+		for i := range m.hist {
+			if m.hist[i].epoch == m.epoch {
+				if leg {
+					m.hist[i].leg = got
+				} else {
+					m.hist[i].n2 = got
+				}
+			}
+		}
+		if leg {
+			m.curLeg = got
+		} else {
+			m.curN2 = got
+		}
+	}
+	if c08 && m.blkTicks > 1 {
+		// maps published by the earlier ticks of this block: their first read
+		// is the reference from here on
+		for i := range m.hist {
+			h := &m.hist[i]
+			if h.epoch <= m.epoch-int64(m.blkTicks) || h.epoch >= m.epoch {
+				continue
+			}
+			if got, err := e.readText(nmLegacyListText, "snapshotByEpoch", h.epoch); err == nil && got != h.leg {
+				r.Count("c08_reference_taken_from_first_read")
+				h.leg = got
+			}
+			if got, err := e.readText(nmStructListText, "listNodes", h.epoch); err == nil && got != h.n2 {
+				r.Count("c08_reference_taken_from_first_read")
+				h.n2 = got
+			}
+		}
+	}
 	if got, err := e.readText(nmLegacyListText, "netmap"); err != nil || got != m.curLeg {
-		r.Violation(e.mapRule("C06/netmap-mismatch", "C08/snapshot-mismatch"), "", "netmap() = [%s] err=%v, published at epoch %d: [%s]", got, err, m.epoch, m.curLeg)
+		if c08 && err == nil && m.blkTicks > 0 {
+			adopt(true, got)
+		} else {
+			r.Violation(e.mapRule("C06/netmap-mismatch", "C08/snapshot-mismatch"), "", "netmap() = [%s] err=%v, published at epoch %d: [%s]", got, err, m.epoch, m.curLeg)
+		}
+	}
+	if got, err := e.readText(nmStructListText, "listNodes", m.epoch); err != nil || got != m.curN2 {
+		if c08 && err == nil && m.blkTicks > 0 {
+			adopt(false, got)
+		} else {
+			r.Violation(e.mapRule("C06/listnodes-mismatch", "C08/listnodes-mismatch"), "", "listNodes(%d) = [%s] err=%v, published: [%s]", m.epoch, got, err, m.curN2)
+		}
 	}
 	if got, err := e.readText(nmStructListText, "listNodes"); err != nil || got != m.curN2 {
 		r.Violation(e.mapRule("C06/listnodes-mismatch", "C08/listnodes-mismatch"), "", "listNodes() = [%s] err=%v, published at epoch %d: [%s]", got, err, m.epoch, m.curN2)
-	}
-	if got, err := e.readText(nmStructListText, "listNodes", m.epoch); err != nil || got != m.curN2 {
-		r.Violation(e.mapRule("C06/listnodes-mismatch", "C08/listnodes-mismatch"), "", "listNodes(%d) = [%s] err=%v, published: [%s]", m.epoch, got, err, m.curN2)
 	}
 	r.Checkpoint()
 	if m.jumped {
@@ -1583,6 +1637,10 @@ func (e *nmEngine) checkHistory() {
 		got, err := e.readText(nmLegacyListText, "snapshot", d)
 		if d < nh {
 			want := m.hist[nh-1-d]
+			if want.unseen {
+				r.Count("c08_unobserved_map_not_compared")
+				continue
+			}
 			if err != nil || got != want.leg {
 				r.Violation("C08/snapshot-mismatch", "", "count %d, epoch %d: snapshot(%d) = [%s] err=%v; the map published %d ticks ago (epoch %d) is [%s]", m.n, m.epoch, d, got, err, d, want.epoch, want.leg)
 			}
@@ -1592,6 +1650,10 @@ func (e *nmEngine) checkHistory() {
 	}
 	for ep := lo; ep <= hi; ep++ {
 		want := m.retained(ep)
+		if want != nil && want.unseen {
+			r.Count("c08_unobserved_map_not_compared")
+			continue
+		}
 		got, err := e.readText(nmLegacyListText, "snapshotByEpoch", ep)
 		if want != nil {
 			if err != nil || got != want.leg {
